@@ -86,7 +86,10 @@ VirtualOK(s, d, o) ==
   /\ \A i \in VirtLinks(o) : EdgeKey(AsReq(Rec(o.lines[i]))) \in d.vlk \/ (s.orph /\ Orphan(o, i))
   /\ \A i \in VirtIdx(o) : Rec(o.lines[i]).rt \in {"S", "?", "L"}
 \* no placeholder for an identifier the document defines
-NoShadow(s, d, o) == \A i \in VirtNamed(o) : Rec(o.lines[i]).name \notin d.names
+\* orphan placeholders (outside the claim, DESIGN 3.1) may carry a name that is defined later:
+\* names, lookups and the shadow clause are not judged while one is around
+Orphans(s, o) == s.orph /\ OrphanSet(o) # {}
+NoShadow(s, d, o) == Orphans(s, o) \/ \A i \in VirtNamed(o) : Rec(o.lines[i]).name \notin d.names
 
 \* back-reference collections of every identified line and placeholder (C11 keys)
 LoggedFilings(o, j) ==
@@ -162,9 +165,10 @@ LoggedVirtNames(o) == {Rec(o.lines[i]).name : i \in {j \in VirtIdx(o) : Rec(o.li
 NamesOK(s, d, o) ==
   LET lv == LoggedVirtNames(o)
       real == SelectSeq(o.names, LAMBDA n : n \notin lv) IN
-  /\ Rng(real) = d.names
-  /\ \A n \in d.names : Cardinality({k \in DOMAIN real : real[k] = n}) = 1
-LookupOK(s, d, o) == \A k \in DOMAIN o.look :
+  \/ Orphans(s, o)
+  \/ (/\ Rng(real) = d.names
+      /\ \A n \in d.names : Cardinality({k \in DOMAIN real : real[k] = n}) = 1)
+LookupOK(s, d, o) == Orphans(s, o) \/ \A k \in DOMAIN o.look :
   LET e == o.look[k]
       id == e[1]
       tg == IdxNamed(s, id) IN
